@@ -49,11 +49,37 @@ def check_pair(rng, prog):
         return {'python_plain': base, 'python_noisy': noisy, 'differs': [k for k in a if a[k] != b.get(k)][:5]}
     return None
 
+def check_derived_after_corr(rng, prog):
+    """objects BUILT after the correlations are declared must report what a fresh history reports, even when their
+    operands were read before the declaration (new objects start without a cache)"""
+    if not prog['corr'] or not prog['ops']: return None
+    names = [v for v, _, _ in prog['ops']]
+    derive = []
+    for i, v in enumerate(names):
+        derive.append('d%d = %s' % (i, rng.choice(['-{v}', '{v}*2.0', '{v}+1.5', '0-{v}', '2.0-{v}', '+{v}', '{v}/2.0', '{v}-{v}*0.5']).format(v=v)))
+    dn = ['d%d' % i for i in range(len(names))]
+    reads = ['_ = %s.u; _ = %s.df' % (v, v) for v in names if rng.random() < 0.7]
+    hist = list(prog['decl']) + [l for _, l, _ in prog['ops']] + reads + list(prog['corr']) + derive
+    fresh = list(prog['decl']) + list(prog['corr']) + [l for _, l, _ in prog['ops']] + derive
+    try:
+        a = slp.sweep(slp.run(fresh), dn, prog['inputs'])
+    except Exception:
+        return None
+    try:
+        b = slp.sweep(slp.run(hist), dn, prog['inputs'])
+    except Exception as ex:
+        return {'python_plain': fresh, 'python_noisy': hist, 'names': dn, 'raised': repr(ex)}
+    if a != b:
+        return {'python_plain': fresh, 'python_noisy': hist, 'names': dn, 'differs': [k for k in a if a[k] != b.get(k)][:5]}
+    return None
+
 def search(rng, tier, broken):
     n = 300 if tier == 'quick' else 5000
     for i in range(n):
         prog = slp.gen(rng)
         r = check_pair(rng, prog)
+        if r is None:
+            r = check_derived_after_corr(rng, prog)
         if r is not None:
             return {'tried': i + 1, 'failing': r}
     return {'tried': n, 'failing': None}
@@ -79,7 +105,7 @@ def replay(payload):
     f = payload.get('failing_input')
     if f and 'python_plain' in f:
         try:
-            names = sorted(set(l.split(' = ')[0] for l in f['python_plain'] if l.startswith('t')))
+            names = f.get('names') or sorted(set(l.split(' = ')[0] for l in f['python_plain'] if l.startswith('t')))
             inputs = sorted(set(n.strip() for l in f['python_plain'] if l.startswith('x') for n in l.split(' = ')[0].split(',')))
             a = slp.sweep(slp.run(f['python_plain']), names, inputs)
             b = slp.sweep(slp.run(f['python_noisy']), names, inputs)
